@@ -76,3 +76,11 @@
 
 ; html.EscapeString as an uninterpreted function of its argument (validated only by bounded runs)
 (declare-fun htmlEscape (Str) Str)
+
+; C16: items of a byte stream (see govc/streams.go)
+(declare-datatypes ((Item 0)) (((iU8 (u8val Int)) (iU16 (u16val Int)) (iU32 (u32val Int)) (iI32 (i32val Int)) (iI64 (i64val Int)) (iU64 (u64val Int)) (iBytes (bytesval Str)))))
+(assert (forall ((s Str)) (! (= (str_of_bytes (bytes_of s) 0 (slen s)) s) :pattern ((bytes_of s)))))
+(define-fun isU8 ((x Item)) Bool ((_ is iU8) x))
+(define-fun isU32 ((x Item)) Bool ((_ is iU32) x))
+(define-fun isI64 ((x Item)) Bool ((_ is iI64) x))
+(define-fun isBytes ((x Item)) Bool ((_ is iBytes) x))
